@@ -253,6 +253,7 @@ def run_shard(spec):
     mon = Monitor(obs)
     pages = real_pages()
     n = spec["n"]
+    overruns = 0
     for i in range(n):
         r = i % 10
         mode = rng.randrange(3)
@@ -273,7 +274,14 @@ def run_shard(spec):
         else:
             text = call_case(rng)
             gen = "G5"
-        run_case(mon, obs, text, mode, gen)
+        probs = run_case(mon, obs, text, mode, gen)
+        if any(sg.startswith(("no-return", "placeholder-char-in-input/no-return")) for sg, _ in probs):
+            overruns += 1
+            if overruns >= 3:
+                # every overrun costs the whole per-case CPU budget: report what was seen instead of
+                # running into the shard's wall-clock limit (which would lose the witnesses)
+                obs.notes.append("shard stopped early after 3 CPU-budget overruns")
+                break
         if i % 25 == 0:
             for sig, msg in mon.probe_state(mode):
                 obs.violation(sig, msg, {"text": text, "mode": mode, "gen": gen, "then": "probe"})
